@@ -20,13 +20,14 @@ import json, os
 import common
 
 PID = "C15"
-GEN = ["ScannerFields"]
+GEN = ["ScannerFields", "ParserFields"]
 LEAN_MODULE = "XV.Props.C15"
 THEOREMS = ["XV.Props.C15." + t for t in (
     "history_independent", "history_independent_throw", "history_independent_first", "real_eq_reference",
     "all_classified", "reset_complete", "reset_touches_no_config", "config_justified", "exceptions_exact",
     "seq_bumped_on_every_entry", "field_reset_complete", "field_reset_incomplete", "classes_reset_complete_after_repair",
-    "classes_reset_complete", "f11_history_dependent", "f11_not_reset_complete",
+    "classes_reset_complete", "Parsers.parser_all_classified", "Parsers.parser_reset_complete", "Parsers.parser_config_justified",
+    "Parsers.parser_exceptions_exact", "Parsers.parser_classes_reset_complete", "f11_history_dependent", "f11_not_reset_complete",
     "stale_token_rejected", "token_dead_after_reset", "adopted_docs_intact",
     "locked_pool_frozen", "cache_then_retrieve", "cache_existing_rejected", "orphan_removes", "clear_noop_when_locked",
     "resolver_locked_pool_frozen", "resolver_lookup_order", "parser_locked_pool_frozen")]
@@ -72,8 +73,15 @@ B_XSD = ('<xs:schema xmlns:xs="http://www.w3.org/2001/XMLSchema" targetNamespace
 N_XSD = ('<xs:schema xmlns:xs="http://www.w3.org/2001/XMLSchema">'
          '<xs:element name="r"><xs:complexType><xs:sequence><xs:element name="e" type="xs:date" minOccurs="0" maxOccurs="unbounded"/></xs:sequence>'
          '<xs:attribute name="k" default="sn"/></xs:complexType></xs:element></xs:schema>')
-ENTS = {"file:///c15/a.dtd": A_DTD, "file:///c15/b.dtd": B_DTD, "file:///c15/a.xsd": A_XSD, "file:///c15/b.xsd": B_XSD, "file:///c15/n.xsd": N_XSD}
-GRAMS = {1: ("D", "file:///c15/a.dtd"), 2: ("D", "file:///c15/b.dtd"), 3: ("S", "file:///c15/a.xsd"), 4: ("S", "file:///c15/b.xsd"), 5: ("S", "file:///c15/n.xsd")}
+C_XSD = ('<xs:schema xmlns:xs="http://www.w3.org/2001/XMLSchema" targetNamespace="urn:z" xmlns="urn:z" elementFormDefault="qualified">'
+         '<xs:element name="r"><xs:complexType><xs:sequence>'
+         '<xs:element name="a"><xs:complexType><xs:sequence><xs:element name="b" type="xs:int" maxOccurs="unbounded"/></xs:sequence></xs:complexType></xs:element>'
+         '<xs:element name="e" type="xs:int" minOccurs="0" maxOccurs="unbounded"/>'
+         '<xs:element name="d" minOccurs="0"><xs:complexType><xs:sequence><xs:element name="g" type="xs:date"/></xs:sequence>'
+         '<xs:attribute name="w" type="xs:string" default="dw"/></xs:complexType></xs:element>'
+         '</xs:sequence><xs:attribute name="n" type="xs:int"/><xs:attribute name="k" type="xs:string" default="sz"/></xs:complexType></xs:element></xs:schema>')
+ENTS = {"file:///c15/c.xsd": C_XSD, "file:///c15/a.dtd": A_DTD, "file:///c15/b.dtd": B_DTD, "file:///c15/a.xsd": A_XSD, "file:///c15/b.xsd": B_XSD, "file:///c15/n.xsd": N_XSD}
+GRAMS = {1: ("D", "file:///c15/a.dtd"), 2: ("D", "file:///c15/b.dtd"), 3: ("S", "file:///c15/a.xsd"), 4: ("S", "file:///c15/b.xsd"), 5: ("S", "file:///c15/n.xsd"), 6: ("S", "file:///c15/c.xsd")}
 LOCS = {1: "urn:x file:///c15/a.xsd", 2: "urn:x file:///c15/b.xsd", 3: "file:///c15/n.xsd"}
 INT_A = '<!DOCTYPE r [\n' + A_DTD + ']>\n'
 DOCS = {
@@ -101,10 +109,23 @@ DOCS = {
  20: '<!DOCTYPE r [<!ENTITY a "x">]>\n<r><e>' + "&a;" * 6 + '</e></r>',
  21: '<!DOCTYPE r [<!ENTITY a "x">]>\n<r><e>' + "&a;" * 9 + '</e><e k="&a;"/></r>',
  22: '<!DOCTYPE r [<!ENTITY b "y"><!ENTITY a "&b;&b;">]>\n<r><e>&a;&a;&a;</e></r>',
+ # schema-invalid at several positions: root attribute, inside the first child, after the first child, deep, trailing element
+ 23: '<r xmlns="urn:z" %s xsi:schemaLocation="urn:z file:///c15/c.xsd" n="x"><a><b>bad</b><b>2</b></a><e>1</e><e>zz</e><d><g>nodate</g></d><q/></r>' % XSI,
+ 24: '<r xmlns="urn:z" %s xsi:schemaLocation="urn:z file:///c15/c.xsd" n="1"><a><b>1</b></a><e>2</e><d><g>2001-01-01</g></d></r>' % XSI,
+ 25: '<r xmlns="urn:z" %s xsi:schemaLocation="urn:z file:///c15/c.xsd"><a><b>1</b></a><e>x</e><e>y</e></r>' % XSI,   # errors only after the first child
+ # parses that fail at many positions: inside the internal subset (fatal), validity error inside it, inside an entity, in the prolog, EOF in the subset
+ 26: '<!DOCTYPE r [<!ELEMENT r ANY>\n<!ENTITY z "zz">\n<!ATTLIST r q CDATA "leak">\n<!ELEMENT >\n]>\n<r/>',
+ 27: '<!DOCTYPE r [<!ELEMENT r ANY>\n<!ELEMENT r ANY>\n<!ENTITY y "yy">\n]>\n<r>&y;</r>',
+ 28: '<!DOCTYPE r [<!ENTITY bad "<e>unclosed">]>\n<r>&bad;</r>',
+ 29: '<?xml version="1.0" standalone="maybe"?>\n<r/>',
+ 30: '<!DOCTYPE r [<!ELEMENT r ANY>\n<!ENTITY w "ww">\n',
+ 31: '<!DOCTYPE r [<!NOTATION n SYSTEM "urn:n">\n<!ENTITY u SYSTEM "file:///c15/u.bin" NDATA n>\n<!ELEMENT r ANY>\n<!ATTLIST r a CDATA "d">\n]>\n<r/>',
 }
 V11_DOCS = {11}
 EXT_DTD_DOCS = {3, 4, 5, 13}
 EXP_DOCS = {16, 20, 21, 22}
+SUBSET_FAIL_DOCS = {26, 27, 28, 29, 30, 9, 16}     # parses that end early, several inside the internal DTD subset
+INT_SUBSET_DOCS = {1, 2, 15, 20, 22, 31}        # documents with an internal subset
 NDOC = len(DOCS)
 
 def hx(s):
@@ -731,33 +752,56 @@ def pair_sweep(ctx, quick_fraction):
                 pre = [o for o in pre if o != "Fval=1"] + ["Fval=1"]
             for d1 in range(NDOC):
                 for d2 in range(NDOC):
-                    if pname == "sec" and not (d1 in EXP_DOCS and d2 in EXP_DOCS):
-                        continue      # entity-expansion budget: all pairs of the k-expansion documents under limit 10
-                    if pname != "sec" and quick_fraction < 1 and not r.below(1000) < int(1000 * quick_fraction):
+                    if pname == "sec":
+                        if not (d1 in EXP_DOCS and d2 in EXP_DOCS):
+                            continue      # entity-expansion budget: all pairs of the k-expansion documents under limit 10
+                    elif d1 in SUBSET_FAIL_DOCS and d2 in INT_SUBSET_DOCS and kind in ("dom", "ls") and sc == 0 and pname != "schema":
+                        pass          # a parse that ends early (inside the internal subset, an entity, the prolog, ...) followed by
+                                      # a document with an internal subset, on the DOM kinds: always
+                    elif quick_fraction < 1 and not r.below(1000) < int(1000 * quick_fraction):
                         continue
                     hists.append(Hist(kind, pre + ["P%d" % d1, "P%d" % d2]))
     ctx.stats["pair_histories"] = len(hists)
     return hists
 
+SCHEMES = ("never", "auto", "always")
+def scheme_ops(kind, scheme):
+    if scheme == "never":
+        return [] if kind == "ls" else ["Fval=0"]
+    if scheme == "always":
+        return ["Fval=1", "Fdyn=0"] if kind == "sax2" else ["Fval=1"]
+    return {"sax": ["Fval=2"], "dom": ["Fval=2"], "sax2": ["Fval=1", "Fdyn=1"], "ls": ["Fvis=1"]}[kind]
+
+# (grammar id, instance document, a valid 'other' document that brings the same grammar, schema?)
+MATRIX_CASES = [(1, 3, 13, False), (1, 5, 3, False), (2, 4, 4, False),
+                (3, 6, 8, True), (3, 8, 6, True), (4, 7, 7, True), (5, 17, 17, True),
+                (6, 23, 24, True), (6, 25, 24, True), (6, 24, 23, True)]
+
 def matrix_lines():
-    """(grammar, instance) transparency: inline vs preloaded (loadGrammar toCache + useCachedGrammarInParse) vs cached
-    from an earlier parse.  Instances refer to the grammar the same way in all three runs; compared: everything the parse
-    delivers except the entity-resolver calls / DTD boundary events that fetching the grammar itself produces."""
-    # (grammar id, instance doc, a valid 'other' doc that brings the same grammar, config ops)
-    cases = [(1, 3, 13, ["Fval=1"]), (1, 5, 3, ["Fval=1"]), (2, 4, 4, ["Fval=1"]),
-             (3, 6, 8, ["Fns=1", "Fschema=1", "Fval=1"]), (3, 8, 6, ["Fns=1", "Fschema=1", "Fval=1"]), (4, 7, 7, ["Fns=1", "Fschema=1", "Fval=1"]),
-             (5, 17, 17, ["Fns=1", "Fschema=1", "Fval=1"])]
+    """(grammar, instance) transparency: validation scheme {never, auto, always} x {grammar inline, preloaded with loadGrammar
+    toCache + useCachedGrammarInParse, cached from an earlier parse} x 4 parser kinds (IGXMLScanner) + SAX2 with SGXMLScanner,
+    over valid and INVALID instances whose errors sit in the root's attributes, inside the first child, after the first child,
+    deep, and at the end.  Instances name the grammar the same way in all three runs; compared: EVERYTHING the parse delivers
+    (events, defaulted attributes with type and specified flag, every error with line/column, PSVI / DOM type info) except the
+    entity-resolver calls and DTD boundary events that fetching the grammar itself produces."""
     lines, meta = [], []
-    for kind in KINDS:
-        for g, d, other, cfg in cases:
-            inline = "H %s %s;P%d" % (kind, ";".join(cfg), d)
-            pre = "H %s %s;G%d.1;Fuse=1;P%d" % (kind, ";".join(cfg), g, d)
-            cached = "H %s %s;Fcache=1;P%d;Fcache=0;Fuse=1;P%d" % (kind, ";".join(cfg), other, d)
-            for tag, l in (("inline", inline), ("preloaded", pre), ("cached", cached)):
-                lines.append(l); meta.append((kind, g, d, tag))
-    return lines, meta, cases
+    combos = [(k, 0) for k in KINDS] + [("sax2", 3)]
+    for kind, sc in combos:
+        for scheme in SCHEMES:
+            for g, d, other, schema in MATRIX_CASES:
+                if sc == 3 and not schema:
+                    continue
+                cfg = (["S3"] if sc else []) + (["Fns=1", "Fschema=1"] if schema else []) + scheme_ops(kind, scheme)
+                c = ";".join(cfg)
+                inline = "H %s %s;P%d" % (kind, c, d)
+                pre = "H %s %s;G%d.1;Fuse=1;P%d" % (kind, c, g, d)
+                cached = "H %s %s;Fcache=1;P%d;Fcache=0;Fuse=1;P%d" % (kind, c, other, d)
+                for tag, l in (("inline", inline), ("preloaded", pre), ("cached", cached)):
+                    lines.append(l.replace(" ;", " ")); meta.append((kind, sc, scheme, g, d, tag))
+    return lines, meta, MATRIX_CASES
 
 def matrix_judge(ctx, lines, meta, cases, out):
+    import re as _re
     def strip_fetch(ev):
         keep = []
         for e in ev.split(","):
@@ -767,30 +811,30 @@ def matrix_judge(ctx, lines, meta, cases, out):
         t = ",".join(keep)
         return "" if t == "-" else t.lstrip("-") if t.startswith("-|") else t
     res = {}
-    for (kind, g, d, tag), o, l in zip(meta, out, lines):
-        if o.startswith("CRASH"):
-            res[(kind, g, d, tag)] = (o, l); continue
+    for m, o, l in zip(meta, out, lines):
+        if o.startswith("CRASH") or " ;; " not in o:
+            res[m] = (o, l); continue
         parts = [split_op(p) for p in o.split(" ;; ")[:-1]]
-        res[(kind, g, d, tag)] = (strip_fetch(parts[-1]["ev"]), l)
+        res[m] = (strip_fetch(parts[-1]["ev"]), l)
     n = 0
-    for kind in KINDS:
-        for g, d, other, cfg in cases:
-            base = res[(kind, g, d, "inline")]
-            for tag in ("preloaded", "cached"):
-                n += 1
-                cur = res[(kind, g, d, tag)]
-                if cur[0] != base[0]:
-                    import re as _re
-                    strip_ents = lambda t: _re.sub(r" &[^ >]+", "", t)
-                    if kind in ("dom", "ls") and strip_ents(cur[0]) == strip_ents(base[0]):
-                        key = "dom-doctype-entities-missing-with-cached-dtd"
-                    else:
-                        key = "grammar-transparency:%s" % tag
-                    if not any(v["key"] == key for v in ctx.violations):
-                        ctx.violations.append({"key": key, "concrete": True,
-                            "what": "%s parser: grammar %s (%s) %s gives a different result for document %d than the grammar inline: %s | inline: %s" % (
-                                kind, g, GRAMS[g][1], tag, d, cur[0][:400], base[0][:400]),
-                            "replay": {"op": "matrix", "lines": [base[1], cur[1]], "inline": base[0], tag: cur[0]}})
+    strip_ents = lambda t: _re.sub(r" [&!][^ >]+", "", t)
+    for m in meta:
+        kind, sc, scheme, g, d, tag = m
+        if tag == "inline":
+            continue
+        n += 1
+        base = res[(kind, sc, scheme, g, d, "inline")]
+        cur = res[m]
+        if cur[0] != base[0]:
+            if kind in ("dom", "ls") and strip_ents(cur[0]) == strip_ents(base[0]):
+                key = "dom-doctype-entities-missing-with-cached-dtd"
+            else:
+                key = "grammar-transparency:%s" % tag
+            if not any(v["key"] == key for v in ctx.violations):
+                ctx.violations.append({"key": key, "concrete": True,
+                    "what": "%s parser%s, validation %s: grammar %s (%s) %s gives a different result for document %d than the grammar inline: %s | inline: %s" % (
+                        kind, " (SGXMLScanner)" if sc else "", scheme, g, GRAMS[g][1], tag, d, cur[0][:600], base[0][:600]),
+                    "replay": {"op": "matrix", "lines": [base[1], cur[1]], "inline": base[0], tag: cur[0]}})
     ctx.stats["matrix_cells"] = n
     return n
 
@@ -823,6 +867,8 @@ CURATED = [
     ("sax2", ["Fval=1", "P1", "P2"]), ("sax2", ["Fval=1", "P13", "P3"]), ("sax", ["QF1", "QN0", "P0", "QN0", "QR0"]),
     ("sax", ["MI10", "P20", "P20"]), ("sax2", ["MI10", "P21", "P20"]), ("dom", ["MI10", "P22", "P22"]), ("ls", ["MI10", "P20", "P20", "P20"]),
     ("sax2", ["MI5", "P0", "ML10", "P20"]), ("dom", ["MI12", "P21", "ML7", "P20", "ML5", "P20"]), ("sax", ["MI7", "E20.9", "P20"]),
+    ("dom", ["P26", "P1"]), ("ls", ["P26", "P31"]), ("dom", ["Fval=1", "E27.3", "P31"]), ("ls", ["Fval=1", "E27.2", "P1"]), ("dom", ["P30", "P20"]),
+    ("dom", ["P26", "RD", "P31"]), ("dom", ["P28", "P31"]), ("dom", ["E26.2", "P2"]), ("sax2", ["P26", "P1"]), ("sax", ["Fval=1", "E27.2", "P31"]),
     ("sax2", ["MI10", "QF20", "QN0", "QN0", "QN0", "QR0", "P20"]), ("sax2", ["S2", "MI10", "P20", "P20"]), ("sax", ["MI10", "P20", "M0", "P21", "MI5", "P20"]),
 ]
 
